@@ -168,6 +168,12 @@ func c04r1(c *Ctx) {
 				if strings.HasPrefix(keyTerm, "**"+x.in+".VMInput.Arguments[") {
 					continue
 				}
+				// a value that is neither a delete nor a marshalled token entry is not a balance (counter, role list, flag bytes): key layout is C05's business
+				if v := call.Common().Args[1]; !isNilConst(v) {
+					if obj := marshalledObject(v); obj == nil || !strings.HasSuffix(obj.Type().String(), "esdt.ESDigitalToken") {
+						continue
+					}
+				}
 				c.FailX(Oblig{Rule: rule, Func: FuncName(s.In.Parent()), Construct: construct, Pos: pos, Kind: "undecided",
 					Detail: "the class of the storage key written here cannot be determined (not an append chain on a constant prefix)"})
 				continue
